@@ -722,12 +722,55 @@ def gen_projection(repo):
       untranslated.append('%s_init' % cls)
       out.append('(* projection.py: %s.__init__ NOT TRANSLATED (%s): alias of the hand-written model *)' % (cls, str(e).replace('*)', '* )')))
     out.append(head + '\n  ' + body + '.\n')
+  # Device.project (device_kit/device.py): the box region is rebuilt whenever the bounds are assigned, and project goes through it
+  try:
+    body = device_project(repo)
+    translated.append('Device_project')
+    out.append('(* device.py: Device.project *)')
+  except (Unsupported, SyntaxError, OSError) as e:
+    body = 'leaf_project bounds s'
+    untranslated.append('Device_project')
+    out.append('(* device.py: Device.project NOT TRANSLATED (%s): alias of the hand-written model, tie falls back to the correspondence *)' % str(e).replace('*)', '* )'))
+  out.append('Definition Device_project (bounds : list (A * A)) (s : list (list A)) : pres (list (list A)) :=\n  %s.\n' % body)
   out.append('End GenProjection.')
   out[out.index('Variable nrm : list A -> A.') + 1:out.index('Variable nrm : list A -> A.') + 1] = consts
   out.append('From Coq Require Import String.')
   out.append('Definition projection_translated : list String.string := [%s]%%string.' % '; '.join('"%s"' % x for x in translated))
   out.append('Definition projection_untranslated : list String.string := [%s]%%string.' % '; '.join('"%s"' % x for x in untranslated))
   return '\n'.join(out) + '\n'
+
+
+def device_project(repo):
+  """Device.project: `self._feasible_region.project(s.reshape(len(self))).reshape(self.shape)`, where _build_feasible_region sets
+  `_feasible_region = HyperCube(self.bounds)` and is called by __init__ and by the bounds setter AFTER the bounds are stored, and
+  `shape` is (1, len(self))."""
+  tree = ast.parse(open(os.path.join(repo, 'device_kit', 'device.py')).read())
+  un = ast.unparse
+  try:
+    node = next(c for c in tree.body if isinstance(c, ast.ClassDef) and c.name == 'Device')
+  except StopIteration:
+    raise Unsupported('?:Module:class Device not found')
+  fns = [n for n in node.body if isinstance(n, ast.FunctionDef)]
+  def one(name, decs):
+    r = [f for f in fns if f.name == name and [un(d) for d in f.decorator_list] == decs]
+    if len(r) != 1:
+      U(node, '%s %s' % (name, decs))
+    return r[0]
+  def code(f):
+    return [un(x) for x in f.body if not (isinstance(x, ast.Expr) and isinstance(x.value, ast.Constant))]
+  if code(one('project', [])) != ['return self._feasible_region.project(s.reshape(len(self))).reshape(self.shape)']:
+    U(node, 'project')
+  if code(one('_build_feasible_region', [])) != ['region = HyperCube(self.bounds)', 'self._feasible_region = region']:
+    U(node, '_build_feasible_region')
+  if code(one('shape', ['property'])) != ['return (1, len(self))'] or code(one('bounds', ['property'])) != ['return self._bounds']:
+    U(node, 'shape / bounds property')
+  st = code(one('bounds', ['bounds.setter']))
+  if 'self._bounds = bounds' not in st or 'self._build_feasible_region()' not in st or st.index('self._build_feasible_region()') < st.index('self._bounds = bounds'):
+    U(node, 'the bounds setter does not rebuild the region after storing the bounds')
+  init = code(one('__init__', []))
+  if 'self.bounds = bounds' not in init:
+    U(node, '__init__ does not go through the bounds setter')
+  return '(pbind (HyperCube_project bounds (List.concat s)) (fun v => POk [v]))'
 
 
 def ctor(tx, cls):
